@@ -1,12 +1,13 @@
 #!/bin/bash
 # seedrerun against a snapshot of /verif (checks) and a scratch worktree of /repo, so that /repo and /verif stay free;
 # results are recorded in /verif/seeded/<id>/meta.json exactly as tools/seedrerun.sh does.
-ROOT=/tmp/verif-snap; REPO=/tmp/bnrepo
+ROOT=${SNAP_ROOT:-/tmp/verif-snap}; REPO=${SNAP_REPO:-/tmp/bnrepo}; ONLY=${ONLY:-.}
 cd $ROOT
 head=$(git -C $REPO rev-parse --short HEAD)
 for d in /verif/seeded/*/; do
   name=$(basename $d)
   [ -f "$d/meta.json" ] || continue
+  echo "$name" | grep -qE -- "$ONLY" || continue
   prop=${name%%-*}
   checks=$(python3 -c "
 import json;m=json.load(open('$d/meta.json'));print(' '.join(sorted(set(['$prop']+m.get('caught_by',[])+list(m.get('checks_run_with_change_applied_to_repo',{}).keys())))))")
